@@ -359,9 +359,37 @@ class SymExec:
             dest = self.place_loc(st, t["dest"])
             self.write(st, dest, args[0])
             return {"k": "call", "name": name, "args": args, "locargs": args, "term": args[0], "inlined": True, "ret": args[0], "site": site, "dest": dest}
+        # dest[a..b].copy_from_slice(src) with constant bounds: element-wise stores
+        if name.split("::")[-1] in ("copy_from_slice", "clone_from_slice") and len(args) == 2 and args[0][0] == "ref" and args[0][1][0] == "subslice" and args[0][1][4] is False and isinstance(args[0][1][2], int) and isinstance(args[0][1][3], int):
+            base, a_, b_ = args[0][1][1], args[0][1][2], args[0][1][3]
+            srcv = self.read(st, args[1][1]) if args[1][0] in ("ref", "refv") else args[1]
+            for k_ in range(b_ - a_):
+                self.write(st, ("cindex", base, a_ + k_, False), proj_read(srcv, ("ci", k_, False)))
+            dest = self.place_loc(st, t["dest"])
+            self.write(st, dest, ("zst", "()"))
+            snap = (("mutref", 0), ("refv", srcv))
+            return {"k": "call", "name": name, "args": snap, "locargs": args, "term": ("zst", "()"), "inlined": True, "ret": ("zst", "()"), "site": site, "dest": dest, "const_copy": (b_ - a_, srcv)}
         # Vec / slice / array element access by a plain usize index: a projection of the argument
         if name.endswith("::index_mut") or name.endswith("::index"):
             ra = [self.fb.ty(a["ty"]).s for a in t.get("resolved_args", []) if "ty" in a]
+            # arr[a..b] / arr[..b] / arr[a..] with constant bounds on a fixed-size array: a sub-slice location
+            if len(args) == 2 and args[0][0] == "ref" and name.startswith("std::array::<impl") and args[1][0] == "agg" and args[1][2] in ("std::ops::Range", "std::ops::RangeTo", "std::ops::RangeFrom"):
+                aty = self.operand_ty(t["args"][0])
+                n_ = aty.to.len if aty is not None and aty.k == "ref" and aty.to is not None and aty.to.k == "array" else None
+                ops_ = [const_int(x) for x in args[1][4]]
+                lo_ = hi_ = None
+                if args[1][2] == "std::ops::Range" and len(ops_) == 2:
+                    lo_, hi_ = ops_
+                elif args[1][2] == "std::ops::RangeTo" and len(ops_) == 1:
+                    lo_, hi_ = 0, ops_[0]
+                elif args[1][2] == "std::ops::RangeFrom" and len(ops_) == 1:
+                    lo_, hi_ = ops_[0], n_
+                if n_ is not None and lo_ is not None and hi_ is not None and 0 <= lo_ <= hi_ <= n_:
+                    dest = self.place_loc(st, t["dest"])
+                    r = ("ref", ("subslice", args[0][1], lo_, hi_, False), args[0][2])
+                    self.write(st, dest, r)
+                    snap = (("refv", self.read(st, args[0][1])), args[1])
+                    return {"k": "call", "name": name, "args": snap, "locargs": args, "term": r, "inlined": True, "ret": r, "site": site, "dest": dest, "const_range": (lo_, hi_, n_)}
             if len(args) == 2 and args[0][0] == "ref" and "std::ops::RangeFull" in ra:
                 # x[..]: the whole thing
                 dest = self.place_loc(st, t["dest"])
@@ -610,6 +638,15 @@ def walk(t):
                     for y in x:
                         if isinstance(y, tuple) and y and isinstance(y[0], str):
                             yield from walk(y)
+
+
+def const_int(t):
+    """integer value of a constant term (through integer casts), else None"""
+    while t[0] == "cast" and t[1] == "IntToInt":
+        t = t[2]
+    if t[0] == "int":
+        return t[1]
+    return None
 
 
 def mentions_site(t, site):
